@@ -7,7 +7,7 @@ import posixpath
 
 from . import core
 from .core import SymInt, SymBool, EngineLimit, _path
-from .symbytes import SymBytes, Seg
+from .symbytes import SymBytes, SymByteArray, Seg
 from .asmshim import Markers
 
 
@@ -17,6 +17,10 @@ class VFile:
         self.content = content
         self.exists = exists        # bool | SymBool
         self.marker = marker        # for gap files: name of the symbolic size
+        VFile.clock += 1
+        self.mtime = 1700000000.0 + VFile.clock      # every creation / rewrite gets a later time stamp
+
+    clock = 0
 
 
 class GapSize:
@@ -35,8 +39,23 @@ class _Reader:
     def __init__(self, data):
         self.data = data
 
-    def read(self):
-        return self.data
+    def read(self, n=-1):
+        pos = getattr(self, 'pos', 0)
+        data = self.data
+        if isinstance(data, SymBytes):
+            if pos:
+                raise EngineLimit('second partial read of symbolic file content')
+            if n is None or n < 0:
+                self.pos = 1 << 62
+                return data
+            self.pos = n
+            return data.take(n)
+        rest = data[pos:]
+        if n is None or n < 0:
+            self.pos = len(data)
+            return rest
+        self.pos = pos + min(n, len(rest))
+        return rest[:n]
 
     def __enter__(self):
         return self
@@ -139,6 +158,21 @@ class VFS:
             return sum(len(c) for c in f.content)
         return len(f.content)
 
+    def getmtime(self, p):
+        a = self.abspath(p)
+        f = self.files.get(a)
+        if f is None or not bool(f.exists):
+            if a in self.dirs:
+                return 1700000000.0
+            raise FileNotFoundError(2, 'No such file or directory', p)
+        return f.mtime
+
+    def remove(self, p):
+        a = self.abspath(p)
+        if a not in self.files or not bool(self.files[a].exists):
+            raise FileNotFoundError(2, 'No such file or directory', p)
+        del self.files[a]
+
     def open(self, p, mode='r', *a, **kw):
         ab = self.abspath(p)
         self.opened.append((ab, mode))
@@ -154,8 +188,20 @@ class VFS:
         if f.kind == 'text':
             return _Reader(f.content if 'b' not in mode else f.content.encode('utf-8'))
         if f.kind == 'written':
-            data = b''.join(f.content) if f.content and isinstance(f.content[0], bytes) else ''.join(f.content)
-            return _Reader(data)
+            if all(isinstance(c, (bytes, bytearray)) for c in f.content):
+                data = b''.join(f.content)
+                return _Reader(data if 'b' in mode else data.decode('utf-8'))
+            if all(isinstance(c, str) for c in f.content):
+                data = ''.join(f.content)
+                return _Reader(data.encode('utf-8') if 'b' in mode else data)
+            if 'b' not in mode:
+                raise EngineLimit('symbolic file content read in text mode')
+            segs = []
+            for c in f.content:
+                if isinstance(c, tuple):
+                    raise EngineLimit('read of a file that was written without truncation')
+                segs += SymBytes.of(c).segs
+            return _Reader(SymBytes(segs))
         return _Reader(f.content if 'b' in mode else f.content.decode('utf-8'))
 
     def install(self, mod):
@@ -188,6 +234,15 @@ class _PathProxy:
 
     def realpath(self, p):
         return self._v.abspath(p)
+
+    def getmtime(self, p):
+        return self._v.getmtime(p)
+
+    getctime = getmtime
+    getatime = getmtime
+
+    def samefile(self, a, b):
+        return self._v.abspath(a) == self._v.abspath(b)
 
 
 class OsProxy:
@@ -227,6 +282,29 @@ class OsProxy:
 
     def close(self, fd):
         self._fds.pop(fd, None)
+
+    def stat(self, path, *a, **k):
+        v = self._v
+        mt = v.getmtime(path)
+        ab = v.abspath(path)
+        isdir = ab in v.dirs and ab not in v.files
+        size = 0 if isdir else v.getsize(path)
+        if not isinstance(size, int):
+            raise EngineLimit('os.stat of a file of symbolic size')
+        import types
+        return types.SimpleNamespace(st_mtime=mt, st_mtime_ns=int(mt * 1e9), st_ctime=mt, st_atime=mt, st_size=size,
+                                     st_mode=(0o040755 if isdir else 0o100644), st_ino=abs(hash(ab)) % (1 << 31), st_dev=1)
+
+    def listdir(self, path='.'):
+        v = self._v
+        ab = v.abspath(path)
+        if ab not in v.dirs:
+            raise FileNotFoundError(2, 'No such file or directory', path)
+        names = set()
+        for q in list(v.files) + list(v.dirs):
+            if q != ab and posixpath.dirname(q) == ab and (q in v.dirs or bool(v.files[q].exists)):
+                names.add(posixpath.basename(q))
+        return sorted(names)
 
     def __getattr__(self, name):
         if name in OsProxy.PURE or (name.startswith('O_') and name.isupper()) or name.startswith('SEEK_'):
